@@ -16,8 +16,8 @@ def trig(f, t, res):
 def run(tier, seed, budget):
     q = tier == 'quick'
     rep = crashfam.run_family('C08', tier, seed, budget, PROFILE, n_workloads=9 if q else 120, max_points=50 if q else 500,
-                              batch_subsets=12 if q else 60, rule=RULE,
-                              required={'crash_points': 150, 'in_flight_op:batch': 150, 'crash_points:batch-subset': 30, 'crash_at_event:write': 30},
+                              batch_subsets=12 if q else 60, rule=RULE, param_spec={'backends': ['fd', 'fd', 'mmap']},
+                              required={'crash_points': 120, 'in_flight_op:batch': 120, 'crash_points:batch-subset': 8, 'crash_at_event:write': 20},
                               assumptions=['process-crash model (see C07); for io_uring batches the admissible post-crash states are modelled as "any subset of '
                                            'the batch\'s independent writes completed"'],
                               profiles=('debug',) if q else ('debug', 'release'))
